@@ -918,9 +918,12 @@ impl Ty {
                 Some(Ty::Float(*first_bit_width.max(second_bit_width)))
             }
             // distincts
+            // `has_semantics_of` only says that the distinct type behaves like the other type.
+            // the distinct type is only the common type if the other value is also accepted by it,
+            // otherwise e.g. `max(distinct i8, f32)` and `max(distinct i8, ?i8)` were `distinct i8`
             (non_distinct, Ty::Distinct { .. }) => {
                 assert_eq!(self, non_distinct);
-                if other.has_semantics_of(self) {
+                if other.has_semantics_of(self) && self.can_fit_into(other) {
                     Some(other.clone())
                 } else {
                     None
@@ -928,7 +931,7 @@ impl Ty {
             }
             (Ty::Distinct { .. }, non_distinct) => {
                 assert_eq!(other, non_distinct);
-                if self.has_semantics_of(non_distinct) {
+                if self.has_semantics_of(non_distinct) && non_distinct.can_fit_into(self) {
                     Some(self.clone())
                 } else {
                     None
